@@ -28,24 +28,23 @@ Proof.
   intros H. inversion H; subst. eapply rr_layers_up; eauto.
 Qed.
 
-Lemma p1_up k nlrf up : forall reps remote h rest remote', ta_phase1 k nlrf up reps remote = P1Found h rest remote' -> up (hid h) = true.
+Lemma p1_up k nlrf up used : forall reps remote h rest remote', ta_phase1 k nlrf up used reps remote = P1Found h rest remote' -> up (hid h) = true.
 Proof.
-  induction reps as [|oh reps IH]; intros remote h rest remote' H; cbn [ta_phase1] in H; [discriminate|].
-  destruct (ta_tier k oh) as [[|t]|]; [| |discriminate].
-  - destruct oh as [x|]; [|eapply IH; eauto]. destruct (up (hid x)) eqn:E; [inversion H; subst; assumption | eapply IH; eauto].
-  - destruct oh as [x|]; eapply IH; eauto.
+  induction reps as [|x reps IH]; intros remote h rest remote' H; cbn [ta_phase1] in H; [discriminate|].
+  destruct (host_tier k x) as [|t]; [|eapply IH; eauto].
+  destruct (up (hid x)) eqn:E; simpl in H; [|eapply IH; eauto].
+  destruct (zmem (hid x) used); simpl in H; [eapply IH; eauto|]. inversion H; subst. assumption.
 Qed.
 
-Lemma p2_inner_up up rest nt : (forall h r, nt = P2Found h r -> up (hid h) = true) ->
-  forall cur h r, p2_inner up rest nt cur = P2Found h r -> up (hid h) = true.
+Lemma p2_inner_up up used rest nt : (forall h r, nt = P2Found h r -> up (hid h) = true) ->
+  forall cur h r, p2_inner up used rest nt cur = P2Found h r -> up (hid h) = true.
 Proof.
-  intros Hnt. induction cur as [|x cur IH]; intros h r H; cbn [p2_inner] in H; [discriminate|].
-  destruct cur as [|y cur].
-  - destruct (up (hid x)) eqn:E; [inversion H; subst; assumption | eapply Hnt; eauto].
-  - destruct (up (hid x)) eqn:E; [inversion H; subst; assumption | eapply IH; eauto].
+  intros Hnt. induction cur as [|x cur IH]; intros h r H; cbn [p2_inner] in H; [eapply Hnt; eauto|].
+  destruct (up (hid x)) eqn:E; simpl in H; [|eapply IH; eauto].
+  destruct (zmem (hid x) used); simpl in H; [eapply IH; eauto|]. inversion H; subst. assumption.
 Qed.
 
-Lemma phase2_up up : forall rem h r, ta_phase2 up rem = P2Found h r -> up (hid h) = true.
+Lemma phase2_up up used : forall rem h r, ta_phase2 up used rem = P2Found h r -> up (hid h) = true.
 Proof.
   induction rem as [|cur rest IH]; intros h r H; cbn [ta_phase2] in H; [discriminate|].
   eapply p2_inner_up; [|exact H]. intros h' r' E. eapply IH; eauto.
@@ -60,14 +59,13 @@ Qed.
 
 Lemma ta_next_up nlrf up p it h it' p' : ta_next nlrf up p it = (Offer h, it', p') -> up (hid h) = true.
 Proof.
-  unfold ta_next. destruct (ta_phase1 (pk p) nlrf up (ti_reps it) (ti_remote it)) as [x rest remote|remote|rest remote] eqn:E1.
+  unfold ta_next. destruct (ta_phase1 (pk p) nlrf up (ti_used it) (ti_reps it) (ti_remote it)) as [x rest remote|remote] eqn:E1.
   - intros H. inversion H; subst. eapply p1_up; eauto.
-  - destruct (if nlrf then ta_phase2 up remote else P2Done remote) as [x rem|rem] eqn:E2.
+  - destruct (if nlrf then ta_phase2 up (ti_used it) remote else P2Done remote) as [x rem|rem] eqn:E2.
     + intros H. inversion H; subst. destruct nlrf; [eapply phase2_up; eauto | discriminate].
     + destruct (match ti_fb it with Some fb => (fb, p) | None => rr_pick p end) as [fb q].
       destruct (ta_phase3 up (ti_used it) fb (S (rr_size fb))) as [[o fb'] used'] eqn:E3.
       intros H. inversion H; subst. eapply phase3_up; eauto.
-  - discriminate.
 Qed.
 
 Lemma step_offer_up c s n s' h : step c s (LNext n) = Some (s', Some (Offer h)) -> s_up s (hid h) = true.
@@ -106,40 +104,36 @@ Qed.
 Lemma ta_nil_absorbing nlrf up p it it' p' : ta_next nlrf up p it = (Nil, it', p') ->
   forall up' q, ta_next nlrf up' q it' = (Nil, it', q).
 Proof.
-  unfold ta_next. destruct (ta_phase1 (pk p) nlrf up (ti_reps it) (ti_remote it)) as [x rest remote|remote|rest remote] eqn:E1;
-    [discriminate| |discriminate].
-  destruct (if nlrf then ta_phase2 up remote else P2Done remote) as [x rem|rem] eqn:E2; [discriminate|].
+  unfold ta_next. destruct (ta_phase1 (pk p) nlrf up (ti_used it) (ti_reps it) (ti_remote it)) as [x rest remote|remote] eqn:E1;
+    [discriminate|].
+  destruct (if nlrf then ta_phase2 up (ti_used it) remote else P2Done remote) as [x rem|rem] eqn:E2; [discriminate|].
   destruct (match ti_fb it with Some fb => (fb, p) | None => rr_pick p end) as [fb q0].
   destruct (ta_phase3 up (ti_used it) fb (S (rr_size fb))) as [[o fb'] used'] eqn:E3.
   intros H. inversion H; subst. apply phase3_nil in E3. destruct E3 as [F1 [F2 F3]].
-  assert (Hst : nlrf = true -> p2_stuck rem).
-  { intros ->. pose proof (phase2_spec up remote) as Hs. rewrite E2 in Hs. tauto. }
+  assert (Hst : nlrf = true -> rem = []).
+  { intros ->. pose proof (phase2_spec up (ti_used it) remote) as Hs. rewrite E2 in Hs. tauto. }
   intros up' q. cbn [ti_reps ti_remote ti_used ti_fb ta_phase1].
-  assert (E : (if nlrf then ta_phase2 up' rem else P2Done rem) = P2Done rem).
-  { destruct nlrf; [apply (Hst eq_refl) | reflexivity]. }
+  assert (E : (if nlrf then ta_phase2 up' used' rem else P2Done rem) = P2Done rem).
+  { destruct nlrf; [rewrite (Hst eq_refl) | ]; reflexivity. }
   rewrite E. destruct fb' as [sh ls co]. cbn [ri_layers ri_co] in *. subst. reflexivity.
 Qed.
 
 (* ---- no call panics: an invariant of the transition system ------------------------------------------- *)
-Definition no_none (reps : list (option host)) : Prop := Forall (fun o => o <> None) reps.
-
-Definition iter_ok (k : pkind) (i : iter) : Prop :=
+Definition iter_ok (i : iter) : Prop :=
   match i with
   | IRR r => rr_inv r
-  | ITA t => (k = PRR \/ no_none (ti_reps t)) /\ match ti_fb t with Some fb => rr_inv fb | None => True end
+  | ITA t => match ti_fb t with Some fb => rr_inv fb | None => True end
   end.
 
 Definition sys_ok (c : cfg) (i : Z) (s : sys) : Prop :=
   pk (s_pol s) = c_kind c /\ 0 <= pctr (s_pol s) <= 2 ^ 62 + i
   /\ Z.of_nat (length (concat (plists (s_pol s)))) <= i
-  /\ Forall (fun ni => iter_ok (c_kind c) (snd ni)) (s_iters s).
+  /\ Forall (fun ni => iter_ok (snd ni)) (s_iters s).
 
-(* the labels of the stated scope: the counter is not forced near 2^63, and a ring without tokens
-   (nil primary) occurs only over the plain round-robin fallback *)
-Definition label_ok (c : cfg) (l : label) : Prop :=
+(* the labels of the stated scope: the counter is not forced near 2^63 (LSetCtr is a test-only label) *)
+Definition label_ok (l : label) : Prop :=
   match l with
   | LSetCtr v => 0 <= v <= 2 ^ 62
-  | LPick _ (QKey None None _) => c_kind c = PRR
   | _ => True
   end.
 
@@ -174,7 +168,7 @@ Proof.
   destruct o; cbn [pol_op]; auto.
 Qed.
 
-Lemma find_iter_ok k n its i : Forall (fun ni => iter_ok k (snd ni)) its -> find_iter n its = Some i -> iter_ok k i.
+Lemma find_iter_ok n its i : Forall (fun ni => iter_ok (snd ni)) its -> find_iter n its = Some i -> iter_ok i.
 Proof.
   induction its as [|[m x] its IH]; simpl; intros Hf H; [discriminate|]. inversion Hf; subst.
   destruct (n =? m)%nat; [inversion H; subst; assumption | auto].
@@ -186,35 +180,17 @@ Proof. intros H. unfold rr_inv, layers_ok. simpl. auto. Qed.
 Lemma rr_inv_shift it : rr_inv it -> 0 <= ri_shift it.
 Proof. intros [H _]. exact H. Qed.
 
-Lemma p1_safe k nlrf up : forall reps remote, (k = PRR \/ no_none reps) ->
-  match ta_phase1 k nlrf up reps remote with
-  | P1Found _ rest _ => k = PRR \/ no_none rest
-  | P1Done _ => True
-  | P1Panic _ _ => False
-  end.
-Proof.
-  induction reps as [|oh reps IH]; intros remote Hk; cbn [ta_phase1]; [exact I|].
-  assert (Hk' : k = PRR \/ no_none reps).
-  { destruct Hk as [Hk|Hk]; [left; assumption | right; inversion Hk; assumption]. }
-  destruct oh as [x|].
-  - cbn [ta_tier]. destruct (host_tier k x) as [|t].
-    + destruct (up (hid x)); [assumption | apply IH; assumption].
-    + apply IH; assumption.
-  - destruct Hk as [->|Hk]; [|inversion Hk; congruence]. cbn [ta_tier]. apply IH. left; reflexivity.
-Qed.
-
-Lemma ta_next_safe nlrf up p it : ctr_in_range p -> iter_ok (pk p) (ITA it) ->
+Lemma ta_next_safe nlrf up p it : ctr_in_range p -> iter_ok (ITA it) ->
   match ta_next nlrf up p it with
-  | (o, it', p') => o <> Panic /\ o <> OutOfFuel /\ iter_ok (pk p) (ITA it')
+  | (o, it', p') => o <> Panic /\ o <> OutOfFuel /\ iter_ok (ITA it')
                     /\ pk p' = pk p /\ plists p' = plists p /\ pctr p <= pctr p' <= pctr p + 1
   end.
 Proof.
-  intros Hr [Hk Hfb]. unfold ta_next.
-  pose proof (p1_safe (pk p) nlrf up (ti_reps it) (ti_remote it) Hk) as H1.
-  destruct (ta_phase1 (pk p) nlrf up (ti_reps it) (ti_remote it)) as [x rest remote|remote|rest remote]; [| |tauto].
-  - splits; try discriminate; try lia. cbn [iter_ok ti_reps ti_fb]. split; assumption.
-  - destruct (if nlrf then ta_phase2 up remote else P2Done remote) as [x rem|rem].
-    + splits; try discriminate; try lia. cbn [iter_ok ti_reps ti_fb]. split; [right; constructor | assumption].
+  intros Hr Hfb. cbn [iter_ok] in Hfb. unfold ta_next.
+  destruct (ta_phase1 (pk p) nlrf up (ti_used it) (ti_reps it) (ti_remote it)) as [x rest remote|remote].
+  - splits; try discriminate; try lia.
+  - destruct (if nlrf then ta_phase2 up (ti_used it) remote else P2Done remote) as [x rem|rem].
+    + splits; try discriminate; try lia.
     + assert (Hpick : exists fb q, (match ti_fb it with Some fb => (fb, p) | None => rr_pick p end) = (fb, q)
                                    /\ rr_inv fb /\ pk q = pk p /\ plists q = plists p /\ pctr p <= pctr q <= pctr p + 1).
       { destruct (ti_fb it) as [fb|].
@@ -227,14 +203,14 @@ Proof.
       pose proof (phase3_spec up (ti_used it) _ fb Hi Hfuel) as H3.
       destruct (ta_phase3 up (ti_used it) fb (S (rr_size fb))) as [[[h| | |] fb'] used']; try tauto.
       * destruct H3 as [pre [post [_ [_ [_ [_ [_ [Hi' _]]]]]]]].
-        splits; try discriminate; try lia. cbn [iter_ok ti_reps ti_fb]. split; [right; constructor | assumption].
+        splits; try discriminate; try lia.
       * destruct H3 as [_ [-> _]].
-        splits; try discriminate; try lia. cbn [iter_ok ti_reps ti_fb]. split; [right; constructor|].
+        splits; try discriminate; try lia. cbn [iter_ok ti_fb].
         apply rr_inv_exhausted. apply rr_inv_shift. assumption.
 Qed.
 
 Lemma step_safe c i s l s' o :
-  sys_ok c i s -> label_ok c l -> 0 <= i -> 2 * i + 4 <= 2 ^ 62 ->
+  sys_ok c i s -> label_ok l -> 0 <= i -> 2 * i + 4 <= 2 ^ 62 ->
   step c s l = Some (s', o) ->
   sys_ok c (i + 1) s' /\ o <> Some Panic /\ o <> Some OutOfFuel.
 Proof.
@@ -256,25 +232,23 @@ Proof.
       split; [|split; discriminate]. unfold sys_ok. cbn [s_pol s_iters pk plists pctr].
       splits; auto; try lia. }
     destruct q as [|ht primary order]; [apply Hrr|]. destruct (c_ta c); [|apply Hrr].
+    destruct (ta_replicas ht primary order) as [reps|]; [|apply Hrr].
     intros H. inversion H; subst. split; [|split; discriminate]. unfold sys_ok. cbn [s_pol s_iters].
-    splits; auto; try lia. constructor; [|assumption]. cbn [snd iter_ok ta_pick ti_reps ti_fb]. split; [|exact I].
-    unfold ta_replicas. destruct ht as [hs|].
-    + right. unfold no_none. apply Forall_forall. intros x Hx. apply in_map_iff in Hx. destruct Hx as [y [<- _]]. discriminate.
-    + destruct primary as [x|]; [right; repeat constructor; discriminate | left; exact Hl].
+    splits; auto; try lia; try (constructor; [exact I | assumption]).
   - destruct (find_iter n (s_iters s)) as [[r|t]|] eqn:Ef; [| |discriminate].
-    + pose proof (find_iter_ok _ _ _ _ Hit Ef) as Hr. cbn [iter_ok] in Hr.
+    + pose proof (find_iter_ok _ _ _ Hit Ef) as Hr. cbn [iter_ok] in Hr.
       pose proof (rr_next_spec (s_up s) r Hr) as Hs. destruct (rr_next (s_up s) r) as [[h| | |] r'] eqn:E; try tauto.
       * destruct Hs as [pre [post [_ [_ [_ [_ [Hi' _]]]]]]]. intros H. inversion H; subst.
         split; [|split; discriminate]. unfold sys_ok. cbn [s_pol s_iters]. splits; auto; try lia.
       * destruct Hs as [_ ->]. intros H. inversion H; subst.
         split; [|split; discriminate]. unfold sys_ok. cbn [s_pol s_iters]. splits; auto; try lia.
         constructor; [|assumption]. apply rr_inv_exhausted. apply rr_inv_shift. assumption.
-    + pose proof (find_iter_ok _ _ _ _ Hit Ef) as Ht. rewrite <- Hk in Ht.
+    + pose proof (find_iter_ok _ _ _ Hit Ef) as Ht.
       pose proof (ta_next_safe (c_nlrf c) (s_up s) (s_pol s) t Hrange Ht) as Hs.
       destruct (ta_next (c_nlrf c) (s_up s) (s_pol s) t) as [[o1 t'] p'] eqn:E.
       destruct Hs as [S1 [S2 [S3 [S4 [S5 S6]]]]]. intros H. inversion H; subst.
       split; [|split; congruence]. unfold sys_ok. cbn [s_pol s_iters]. rewrite S4, S5.
-      splits; auto; try lia. constructor; [|assumption]. rewrite <- Hk. exact S3.
+      splits; auto; try lia.
 Qed.
 
 Lemma sys_init_ok c : sys_ok c 0 (sys_init c).
@@ -287,7 +261,7 @@ Proof.
 Qed.
 
 Lemma run_safe c : forall ls i s s' outs,
-  sys_ok c i s -> Forall (label_ok c) ls -> 0 <= i -> 2 * (i + Z.of_nat (length ls)) + 4 <= 2 ^ 62 ->
+  sys_ok c i s -> Forall label_ok ls -> 0 <= i -> 2 * (i + Z.of_nat (length ls)) + 4 <= 2 ^ 62 ->
   run c s ls = Some (s', outs) ->
   forall n o, In (n, o) outs -> o <> Panic /\ o <> OutOfFuel.
 Proof.
